@@ -16,6 +16,7 @@ from vlib.core import Res
 PROP = "C13"
 SHARDS = {"quick": 16, "thorough": 16}
 TIME_LIMIT = {"quick": 2400, "thorough": 8 * 3600}
+CASE_TIMEOUT_S = 300   # a case that takes longer is inconclusive (counted as ambiguous), never a violation
 RULE = ("Hypothesis: messy fields (vlib/fields.py: 0..60 sky-defined sources of both signs, blends, specks, spikes, NaN "
         "rectangles, white or model-covariance noise, several projections), rms/bkg forced or supplied as FITS maps (incl. a "
         "non-zero smooth background map), doislandflux on/off, all four (nopositive, nonegative) settings. Oracles "
